@@ -263,6 +263,22 @@ def build(nodes, log, prefix_tap, printed):
     return els
 
 
+class CallableWithFillCompute(object):
+    def __init__(self, fn):
+        self._fn = fn
+        self._filled = []
+
+    def __call__(self, value):
+        return self._fn(value)
+
+    def fill(self, value):
+        self._filled.append(value)
+
+    def compute(self):
+        for v in self._filled:
+            yield self._fn(v)
+
+
 def make_element(node, log, printed):
     k = node.kind
     ev = log.ev
@@ -270,6 +286,10 @@ def make_element(node, log, printed):
         def call(value, name=node.name):
             ev("call", name, tok_of(value).serial)
             return bump(value)
+        if sum(map(ord, node.name)) % 3 == 0:
+            # one callable in three is an object that also has fill and compute (and no run):
+            # in a Sequence it is a callable, value by value
+            return CallableWithFillCompute(call)
         return call
     if k == "mark":
         def mark(value, name=node.name, tag=node.p["tag"]):
